@@ -48,7 +48,15 @@ Definition C04_full : Prop :=
         read_fragments (map (fun f => (f, true)) init ++ [(last, false)]) 0 [] []
           = Some (offsets_from 0 (init ++ [last]), concat init ++ last)
         /\ forall k, (k < length (init ++ [last]))%nat ->
-             nth k (offsets_from 0 (init ++ [last])) 0 = Z.of_nat (length (concat (firstn k (init ++ [last]))))).
+             nth k (offsets_from 0 (init ++ [last])) 0 = Z.of_nat (length (concat (firstn k (init ++ [last])))))
+  (* (7) negotiation: whatever the target accepts, when with_forward_open succeeds the size field of the
+     Forward Open that succeeded equals the connection size all of the above plan with; a standard
+     Forward Open after a refused Large one asks for 500 *)
+  /\ (forall st al astd, 0 <= fo_csize st <= (if fo_ext st then 65535 else 511) ->
+        let '(attempts, st', opened) := negotiate st al astd in
+        opened = true ->
+        snd (last attempts (false, 0)) = fo_csize st' /\ fst (last attempts (false, 0)) = fo_ext st'
+        /\ (fo_ext st = true -> al = false -> attempts = [(true, fo_csize st); (false, 500)] /\ fo_csize st' = 500)).
 
 Theorem C04_holds : C04_full.
 Proof.
@@ -59,7 +67,8 @@ Proof.
   split; [exact read_plan_partition|].
   split; [exact write_multi_partition|].
   split; [exact write_frag_tiles|].
-  exact read_frag_offsets.
+  split; [exact read_frag_offsets|].
+  exact negotiate_size_agrees.
 Qed.
 Print Assumptions C04_holds.
 
